@@ -131,6 +131,19 @@ FPTR = [('_parse_inline', 1, 'vf_strcmp,vf_strcasecmp'), ('_parse_inline', 2, 'v
 INSTRUMENT = [sum([['--restrict-function-pointer', '%s.function_pointer_call.%d/%s' % t] for t in FPTR], [])]
 
 
+def _words(pieces):
+    out, cur = [], None
+    for p in pieces:
+        if p == WBEG:
+            cur = []
+        elif p == WEND:
+            out.append(cur)
+            cur = None
+        elif cur is not None:
+            cur.append(p)
+    return out
+
+
 def cinit(rows, width):
     return '{' + ','.join('{' + ','.join(str(v) for v in (r + [END] * (width - len(r)))) + '}' for r in rows) + '}'
 
@@ -149,6 +162,7 @@ def mk(cid, mode, lines, nopt=1, namelen=1, maxw=2, desc='', timeout=600, extra=
     if cut:
         d['VF_CUT'] = None
     d.update(extra or {})
+    assert all(sum(1 for p in w if p <= -100) <= maxw for l in lines for w in _words(l.pieces)) or mode == 'c17', cid
     nl = len(lines)
     uw = {'_parse_inline': depth + 1,
           '_parse_inline.16': nl + 2,                                    # lines of one nesting level (+ EOF)
@@ -158,9 +172,10 @@ def mk(cid, mode, lines, nopt=1, namelen=1, maxw=2, desc='', timeout=600, extra=
           '_parse_inline.12': min(maxwords, 6) + 1,                      # typed arguments
           '_parse_inline.14': nopt + 1,                                  # option table
           '_is_str_number.0': maxw + 2, 'vf_memmove_a.0': max([l.maxword for l in lines] + [1]) + 1, 'vf_memmove_q.0': maxlen + 2,
+          'vf_vsnprintf.0': 40,
           'vf_print_document.0': width + 1, 'vf_print_document.1': nl + 1}  # inner loop has the lower id
     doc = ' | '.join(l.text for l in lines)
-    return Case(cid, 'aconf.c', d, unwind=maxlen + 3, unwindset=uw, checks='safety' if mode == 'c17' else 'func',
+    return Case(cid, 'aconf.c', d, unwind=max(maxlen + 3, 9), unwindset=uw, checks='safety' if mode == 'c17' else 'func',
                 safety_owner='C17' if mode == 'c17' else 'C20', unwind_owner='C17' if mode == 'c17' else 'C20', timeout=timeout, funcs=FUNCS, object_bits=10, instrument=INSTRUMENT,
                 desc=(desc + ' ' if desc else '') + 'template: ' + doc +
                 ' (_ blank byte, n/x name/argument byte, e escaped byte, c comment byte, ?/! arbitrary byte of the alphabet / non-blank)')
@@ -181,10 +196,13 @@ def raw_plain(first, nany, last_sym=True, **kw):
     return raw(first, 0, '', (0, n), mid=mid, **kw)
 
 
-def raw_bracket(second, nany, last='>', **kw):
-    """'<' second-byte(literal) arbitrary* last(literal).  The byte after '<' decides open/close, the last byte decides
-    whether the bracket is complete: both are template constants."""
-    n = 1 + len(second) + nany + len(last)
+def raw_bracket(second, nany, last='>', gtpad=0, **kw):
+    """'<' second-byte(literal) arbitrary* [blanks] last(literal).  The byte after '<' decides open/close, the last byte
+    decides whether the bracket is complete: both are template constants.  The last arbitrary byte is not a blank
+    (blanks in front of '>' are explicit: gtpad), so the length of the line copy is known up to those blanks."""
+    mid = [S('ANY')] * max(nany - 1, 0) + [S('NWS')] * min(nany, 1) + [S('PAD')] * gtpad
+    n = 1 + len(second) + len(mid) + len(last)
+    alt = -1
     if last != '>':
         copy = (0, -1)                       # "Missing closing bracket": no copy is made
         opens = 0
@@ -192,7 +210,15 @@ def raw_bracket(second, nany, last='>', **kw):
         front = 2 if second[:1] == '/' else 1
         copy = (front, n - front - 1)
         opens = 0 if second[:1] == '/' else 1
-    return raw('<' + second, nany, last, copy, opens=opens, **kw)
+        blanks = gtpad
+        if nany == 0 and gtpad == 0:
+            body = second[1:] if second[:1] == '/' else second
+            blanks = len(body) - len(body.rstrip(' \t'))
+        if blanks:
+            alt = copy[1] - blanks           # with / without the blanks in front of '>'
+    ln = raw('<' + second, 0, last, copy, opens=opens, mid=mid, **kw)
+    ln.geo = ln.geo[:4] + (alt,)
+    return ln
 
 
 def c17_cases(tier):
@@ -208,10 +234,12 @@ def c17_cases(tier):
         for n in ([0, 1] if q else [0, 1, 2, 3]):
             add('l1.plain.%s.n%d' % (nm(first), n + 1), [raw_plain(first, n)])
     for second in (['a', '/', '"', ' '] if q else [c for c in ALPHA if c != '>']):
-        for n in ([0, 1] if q else [0, 1, 2]):
+        for n in ([0, 1] if q else ([0, 1, 2, 3] if second in ('a', '/', '"') else [0, 1, 2])):
             add('l1.bracket.%s.n%d' % (nm(second), n), [raw_bracket(second, n)])
     add('l1.bracket.empty', [raw_bracket('', 0)])
     add('l1.bracket.gtgt', [raw_bracket('>', 0)])
+    add('l1.bracket.a.n1.gtpad1', [raw_bracket('a', 1, gtpad=1)])
+    add('l1.bracket.sl.n1.gtpad2', [raw_bracket('/', 1, gtpad=2)])
     for second, n, last in [('', 0, ''), ('a', 0, ''), ('/', 1, 'a'), ('a', 1, '"')]:
         add('l1.nobracket.%s.n%d.%s' % (nm(second), n, nm(last)), [raw_bracket(second, n, last=last)])
     add('l1.comment', [comment(2)])
@@ -219,6 +247,8 @@ def c17_cases(tier):
     add('l1.plain.a.n2.noeol', [raw_plain('a', 1, eol='')])
     add('l1.plain.a.n2.crlf', [raw_plain('a', 1, eol='\r\n', lead=1, trail=1)])
     add('l1.plain.a.n1.nopt2', [raw_plain('a', 0)], nopt=2)
+    if not q:
+        add('l1.words5.argvgrow', [raw('a a a a ', 0, '', (0, 10), mid=[S('ANY'), S('NWS')])])
     if q:
         return out
     # ---- two lines (thorough)
@@ -227,11 +257,10 @@ def c17_cases(tier):
             add('l2.plain.%s.%s' % (nm(first), nm(f2)), [raw_plain(first, 1), raw_plain(f2, 1)])
     add('l2.comment.plain', [comment(1), raw_plain('a', 1)])
     add('l2.blank.plain', [blank(1), raw_plain('a', 1)])
-    # section: open line, then something (all paths end in an error: unclosed) - complete executions
+    # sections with inner lines: executions up to the first error report (see VF_CUT in the harness)
     for n in [0, 1]:
-        add('l2.open.plain.n%d' % n, [raw_bracket('a', n), raw_plain('a', 1)])
-        add('l2.open.open.n%d' % n, [raw_bracket('a', n), raw_bracket('a', 0)])
-    # section open + close: executions up to the first error report (see VF_CUT in the harness)
+        add('l2.open.plain.n%d' % n, [raw_bracket('a', n), raw_plain('a', 1)], cut=True)
+        add('l2.open.open.n%d' % n, [raw_bracket('a', n), raw_bracket('a', 0)], cut=True)
     for n in [0, 1]:
         for m in [1, 2]:
             add('l2.open.close.n%d.m%d' % (n, m), [raw_bracket('a', n), raw_bracket('/', m)], cut=True)
@@ -264,7 +293,7 @@ def c20_cases(tier):
     for w in (ARGS1Q if q else ARGS1T):
         add('opt.args1.%s' % wn(w), [D('opt', [N, w])])
     pairs = [(('b', 'x'), ('b', 'x')), (('b', 'xx'), ('d', 'x')), (('s', 'xe'), ('b', 'x')), (('d', 'x'), ('s', 'x'))] if q else \
-        [(w1, w2) for w1 in ARGS1T for w2 in ARGS1T if len(w1[1]) + len(w2[1]) <= 3]
+        [(w1, w2) for w1 in ARGS1T for w2 in ARGS1T]
     for w1, w2 in pairs:
         add('opt.args2.%s.%s' % (wn(w1), wn(w2)), [D('opt', [N, w1, w2])])
     add('opt.args1.bx.nopt2', [D('opt', [N, ('b', 'x')])], nopt=2)
@@ -273,6 +302,9 @@ def c20_cases(tier):
         add('opt.args1.bx.nopt3', [D('opt', [N, ('b', 'x')])], nopt=3)
         add('opt.args2.bx.bx.nopt2', [D('opt', [N, ('b', 'x'), ('b', 'x')])], nopt=2)
         add('opt.args3.bx.bx.bx', [D('opt', [N, ('b', 'x'), ('b', 'x'), ('b', 'x')])])
+        add('opt.args4.argvgrow', [D('opt', [N, ('b', 'x'), ('b', 'x'), ('b', 'x'), ('b', 'x')])], desc='five words: the argv array is re-allocated;')
+        add('opt.args1.bxxx', [D('opt', [N, ('b', 'xxx')])], maxw=3, desc='3-byte argument (float forms d.d);')
+        add('opt.args1.dxxx', [D('opt', [N, ('d', 'xxx')])], maxw=3)
         add('opt.args1.dxe.name2.nopt2', [D('opt', [('b', 'ax'), ('d', 'xe')])], namelen=2, nopt=2)
     # layout: indentation, wide separators, trailing blanks, line endings
     add('opt.layout.lead1', [D('opt', [N, ('b', 'x')], lead=1)])
@@ -307,14 +339,14 @@ def c20_cases(tier):
     add('sec.opt.close.stray', [D('opt', [N]), D('close', [C])])
     add('sec.open.unclosed', [D('open', [N])])
     add('sec.open.arg.unclosed', [D('open', [N, ('d', 'x')])])
-    add('sec.open.opt.unclosed', [D('open', [N]), D('opt', [N, ('b', 'x')])], nopt=2)
+    add('sec.open.opt.unclosed', [D('open', [N]), D('opt', [N, ('b', 'x')])], nopt=2, cut=True)
     add('sec.open.close', [D('open', [N]), D('close', [C])], cut=True)
     add('sec.open.arg.close', [D('open', [N, ('b', 'x')]), D('close', [C])], cut=True)
     add('sec.open.arg.close.nopt2', [D('open', [N, ('d', 'x')]), D('close', [C])], cut=True, nopt=2)
     add('sec.open.opt.close', [D('open', [N]), D('opt', [N, ('b', 'x')]), D('close', [C])], cut=True, nopt=2)
     add('sec.open.close.opt', [D('open', [N]), D('close', [C]), D('opt', [N, ('b', 'x')])], cut=True, nopt=2)
     if not q:
-        add('sec.open.open.unclosed', [D('open', [N]), D('open', [N])], nopt=2)
+        add('sec.open.open.unclosed', [D('open', [N]), D('open', [N])], nopt=2, cut=True)
         add('sec.opt.open.close', [D('opt', [N, ('b', 'x')]), D('open', [N, ('s', 'x')]), D('close', [C])], cut=True, nopt=2)
         add('sec.open.args2.close', [D('open', [N, ('b', 'x'), ('d', 'xe')]), D('close', [C])], cut=True)
         add('sec.open.comment.close', [D('open', [N, ('b', 'x')]), comment(1), D('close', [C])], cut=True)
@@ -322,6 +354,9 @@ def c20_cases(tier):
         add('sec.open.opt.close.nopt3', [D('open', [N, ('b', 'x')]), D('opt', [N, ('b', 'x')]), D('close', [C])], cut=True, nopt=3)
         add('sec.open.open.close.close', [D('open', [N]), D('open', [N, ('b', 'x')]), D('close', [C]), D('close', [C])], cut=True, nopt=2)
         add('sec.open.close.name2', [D('open', [('b', 'ax')]), D('close', [('b', 'xx')])], cut=True, namelen=2)
+        add('sec.open.dxe.opt.sx.close', [D('open', [N, ('d', 'xe')]), D('opt', [N, ('s', 'x')]), D('close', [C])], cut=True, nopt=2)
+        add('sec.open.close.open.close', [D('open', [N]), D('close', [C]), D('open', [N, ('b', 'x')]), D('close', [C])], cut=True, nopt=2)
+        add('sec.open.opt.opt.close', [D('open', [N, ('b', 'x')]), D('opt', [N, ('b', 'x')]), D('opt', [N]), D('close', [C])], cut=True, nopt=2)
         add('sec.layout.lt', [D('open', [N, ('b', 'x')], lt=' ', lead=1), D('close', [C], lt='\t', lead=1)], cut=True)
     # blanks before '>' (own cases: see the finding in the report)
     add('gtpad.open.b.1', [D('open', [N, ('b', 'x')], gtpad=1), D('close', [C])], cut=True)
@@ -341,4 +376,25 @@ def cases(tier, mode):
 
 
 def info(tier):
-    return {'container': 'Apache-style parser (qaconf.c)', 'bounds': '', 'prestate': '', 'stubs': []}
+    q = tier == 'quick'
+    return {
+        'container': 'Apache-style parser (qaconf.c)',
+        'bounds': ('line templates, %s; words: name (1-2 bytes, first byte a literal) + at most %s arguments of at most 2 content bytes (booleans: up to 5), '
+                   'bare / single-quoted / double-quoted, backslash escapes at every position; blanks (space or tab, symbolic) before, between and after words, CRLF / no final newline; '
+                   'option table of 1..3 entries; every padding, name, argument and comment byte, the whole take word (32 bits), section id (< 2^31) and scope mask (32 bits), callback present or NULL, '
+                   'default handler set or not, parser flags, callback verdicts and fopen failure are symbolic. '
+                   'C17: per line a literal first byte (and, after <, a literal second and last byte) and up to %d arbitrary bytes of the alphabet {a 1 " \' \\ space tab < > / #}. '
+                   'Line buffer reduced from 4096 to %d bytes through the QLIBC_VERIF_MAX_LINESIZE hook (the 4 KiB array alone exhausts 8 GB in the propositional encoding). '
+                   'Documents whose sections contain lines are followed up to the first error report (VF_CUT); flat documents and a lone <section> are followed to the end (return value, clean-up).')
+                  % ('C17 one line, C20 1-3 lines with at most one section' if q else 'C17 1-3 lines, C20 1-4 lines, nesting depth <= 2', '2' if q else '4', 2 if q else 4, LINESIZE),
+        'prestate': ('input family = documents printed by the harness from a driver-chosen shape (line kinds, word counts, quoting style and length of every word, positions of escapes and blanks); '
+                     'a fresh qaconf() object with addoptions() of a symbolic table, optional setdefhandler(), setuserdata(); one parse() call'),
+        'stubs': ['fopen/fgets/fclose: in-memory file, fgets delivers the next template line (fopen failure symbolic)',
+                  'vsnprintf: writes "E"; captures the %d line-number argument of the "%s:%d ..." parse-error prefix (message text outside the claim)',
+                  'strcmp / strcasecmp: byte loops (ASCII case folding), terminator tested on the second operand',
+                  'memmove: two byte-loop instances (down for qstrtrim, up for the tokenizer), direction asserted',
+                  'strdup: exactly sized heap copy; for the line copy length and content are asserted equal to the template prediction, then built from it (assert-then-use)',
+                  'strlen (inside qaconf.c only) and the qstrtrim call site: real computation, result asserted equal to the template prediction, prediction used (assert-then-use); the real qstrtrim() of qstring.c runs',
+                  'goto-instrument --restrict-function-pointer: cmpfunc in {strcmp, strcasecmp models}, callbacks in {recording callback, default handler}, qaconf_t methods = their implementations',
+                  'CBMC built-in malloc/realloc/free/memset/memcpy/strcpy models; malloc does not fail'],
+    }
